@@ -334,6 +334,23 @@ func runC10(p *c10Params) *core.Result {
 			res.Probes["later-read-on-same-reader"]++
 		}
 	}
+	// the empty tree: the only position set is the empty one and the true answer is the empty list
+	// (tlog.StoredHashes(0, ...) reads exactly that when the first record is appended through tiles)
+	if res.Violation == nil && p.Seed>>9&7 == 0 {
+		empty := &c10Reader{p: p, res: res, tree: ref.NewTree(), published: map[string]bool{}, N: 0}
+		func() {
+			defer func() {
+				if e := recover(); e != nil {
+					res.Fail("C10", "no-panic", "ReadHashes panicked", "empty tree, height %d, no indexes: panic: %v", p.H, e)
+				}
+			}()
+			hs, err := tlog.TileHashReader(tlog.Tree{N: 0, Hash: tlog.Hash(ref.NewTree().MTH(0))}, empty).ReadHashes(nil)
+			if err != nil || len(hs) != 0 {
+				res.Fail("C10", "honest-succeeds", "honest read failed", "empty tree, height %d, no indexes: got %d hashes, %v", p.H, len(hs), err)
+			}
+		}()
+		res.Probes["empty-tree-read"]++
+	}
 	res.Steps = rd.reads + rd.saved
 	faulted := anyFault
 
